@@ -39,7 +39,7 @@ def shrink(binp, cm, comp, module, case, want_code, workdir, budget=24):
         fails, errs = qv.coq_eval_cases(module, [c], outs, workdir,
                                         run_name=getattr(cm, "RUN", "run"),
                                         oracle_name=getattr(cm, "ORACLE", "oracle"))
-        return any(code >= want_code for _, code in fails)
+        return any(f[1] >= want_code for f in fails)
 
     cur = list(case)
     n = 2
@@ -97,8 +97,14 @@ def check_component(res, binp, entry, tier, seed, workdir, proof_broken=None):
     known = qv.load_known(pid)
     clean = True
 
+    is_trace = getattr(cm, "IS_TRACE", False)
+
     def evaluate(cases):
         outs = qv.run_impl(binp, comp, cases, subcmd=subcmd)
+        if is_trace:
+            outs = [cm.project(c, o) for c, o in zip(cases, outs)]
+            fails, errs = qv.mon_eval_cases(module, cases, outs)
+            return outs, fails, errs
         fails, errs = qv.coq_eval_cases(module, cases, outs, workdir, shard=shard,
                                         run_name=run_name, oracle_name=oracle_name)
         return outs, fails, errs
@@ -129,7 +135,7 @@ def check_component(res, binp, entry, tier, seed, workdir, proof_broken=None):
     if getattr(cm, "IS_TRACE", False):
         res.coverage["traces_validated_against_impl"] += len(cases)
     for c, o in list(zip(cases, outs))[:2]:
-        res.coverage["samples"].append({"component": comp, "ops": c[:12], "impl_outputs": o[:12]})
+        res.coverage["samples"].append({"component": comp, "ops": c[:12], "impl_outputs": o[:12] + ([["...", len(o), "records"]] if len(o) > 12 else [])})
 
     if errs:
         clean = False
@@ -144,8 +150,9 @@ def check_component(res, binp, entry, tier, seed, workdir, proof_broken=None):
         return True
 
     # ---- something disagrees: search for a concrete failing input
-    code2 = [i for i, code in fails if code == 2]
-    code1 = [i for i, code in fails if code == 1]
+    code2 = [f[0] for f in fails if f[1] == 2]
+    code1 = [f[0] for f in fails if f[1] == 1]
+    where = {f[0]: f[2] for f in fails}
     log(f"[{pid}] {comp}: {len(code1)} model/implementation disagreements, "
         f"{len(code2)} cases where the property oracle fails on the implementation")
     classify = getattr(cm, "classify", None)
@@ -167,15 +174,28 @@ def check_component(res, binp, entry, tier, seed, workdir, proof_broken=None):
         for extra in range(2):
             more = cm.gen(rng.fork(f"search{extra}"), n)
             o2, f2, e2 = evaluate(more)
-            hit = [i for i, code in f2 if code == 2 and
-                   not (classify and classify(more[i], o2[i]) in known)]
+            hit = [f[0] for f in f2 if f[1] == 2 and
+                   not (classify and classify(more[f[0]], o2[f[0]]) in known)]
             if hit:
                 base = len(cases)
                 cases += more
                 outs += o2
                 unknown2 = [base + i for i in hit]
                 break
-    if unknown2:
+    if unknown2 and is_trace:
+        i = unknown2[0]
+        rec = where.get(i, -1)
+        tr = outs[i]
+        p = write_replay(pid, f"{comp}-{seed}", {
+            "property": pid, "component": comp, "kind": "trace-rejected-by-monitor",
+            "what": f"the trace of the real endpoints is not a run the system model {module}.{run_name} allows",
+            "seed": seed, "case": cases[i], "violating_record_index": rec,
+            "violating_record": tr[rec] if 0 <= rec < len(tr) else None,
+            "context": tr[max(0, rec - 6):rec + 2] if rec >= 0 else [],
+            "scenario": getattr(cm, "describe", lambda c: {})(cases[i]),
+            "how_to_replay": f"./check {pid} --replay <this file>"})
+        res.violations.append((p, ""))
+    elif unknown2:
         i = unknown2[0]
         small = shrink(binp, cm, comp, module, cases[i], 2, workdir)
         so = qv.run_impl(binp, comp, [small], subcmd=subcmd)[0]
@@ -321,13 +341,18 @@ def replay(spec, path):
     workdir = os.path.join(qv.CACHE, "run", f"{pid}-replay-{os.getpid()}")
     qv.coq_make([f"Props/{pid}.vo"])
     outs = qv.run_impl(binp, comp, [obj["case"]], subcmd=getattr(cm, "SUBCMD", "comp"))
-    fails, errs = qv.coq_eval_cases(entry["module"], [obj["case"]], outs, workdir,
-                                    run_name=getattr(cm, "RUN", "run"),
-                                    oracle_name=getattr(cm, "ORACLE", "oracle"))
-    mo = qv.coq_model_output(entry["module"], obj["case"], workdir, run_name=getattr(cm, "RUN", "run"))
-    log(json.dumps({"case": obj["case"], "impl_outputs": outs[0], "model_outputs": mo, "codes": fails, "errors": errs}))
+    is_trace = getattr(cm, "IS_TRACE", False)
+    if is_trace:
+        outs = [cm.project(obj["case"], outs[0])]
+        fails, errs = qv.mon_eval_cases(entry["module"], [obj["case"]], outs)
+    else:
+        fails, errs = qv.coq_eval_cases(entry["module"], [obj["case"]], outs, workdir,
+                                        run_name=getattr(cm, "RUN", "run"),
+                                        oracle_name=getattr(cm, "ORACLE", "oracle"))
+    mo = None if is_trace else qv.coq_model_output(entry["module"], obj["case"], workdir, run_name=getattr(cm, "RUN", "run"))
+    log(json.dumps({"case": obj["case"], "impl_outputs": outs[0][:40], "model_outputs": mo, "codes": fails, "errors": errs}))
     if fails or errs:
-        log(f"VIOLATION property={pid} replay={path}" + ("" if any(c == 2 for _, c in fails) else " no-failing-input-found"))
+        log(f"VIOLATION property={pid} replay={path}" + ("" if any(f[1] == 2 for f in fails) else " no-failing-input-found"))
         return 1
     log(f"[{pid}] replay passes")
     return 0
